@@ -203,17 +203,16 @@ def keyorder_check():
                                                                 f"depends on the key order ({got} vs {seen_out})")
                     outcomes.add((kind, tuple(names), extra))
         # batch: every combination of per-row key orders (2 and 3 rows)
-        names = ['a', 'b', 'c']
         rows_base = [{'a': 1.0, 'b': 2.0, 'c': 3.0}, {'a': 4.0, 'b': 5.0, 'c': 6.0}, {'a': 7.0, 'b': 8.0, 'c': 9.0}]
-        perms = list(itertools.permutations(names))
-        for nrows in (2, 3):
+        perms = list(itertools.permutations(['a', 'b', 'c']))
+        for names, nrows in ((['a', 'b', 'c'], 2), (['a', 'b', 'c'], 3), (['c'], 1), (['c'], 2), (['b'], 3), (['c', 'a'], 2)):
             for orders in itertools.product(perms, repeat=nrows):
                 received = []
 
                 def stub(X, received=received):
                     arr = X.detach().cpu().numpy() if hasattr(X, 'detach') else np.asarray(X)
                     received.append(np.array(arr, dtype=float))
-                    res = (arr * np.array([1.0, 10.0, 100.0])).sum(axis=1)
+                    res = (arr * np.array([1.0, 10.0, 100.0])[:arr.shape[1]]).sum(axis=1) if arr.ndim == 2 else arr * 0 - 1
                     if hasattr(X, 'detach'):
                         import torch
                         return torch.tensor(res)
@@ -223,7 +222,7 @@ def keyorder_check():
                 got = w(xs)
                 n_cases += 1
                 want_arr = np.array([[rows_base[i][f] for f in names] for i in range(nrows)])
-                want = [canon_row((want_arr[i] * np.array([1.0, 10.0, 100.0])).sum()) for i in range(nrows)]
+                want = [canon_row((want_arr[i] * np.array([1.0, 10.0, 100.0])[:len(names)]).sum()) for i in range(nrows)]
                 if len(received) != 1 or not np.array_equal(received[0], want_arr):
                     bad(f'batch-input-order/{kind}', f"{kind} wrapper with feature_names={names}, batch rows keyed in "
                                                      f"orders {[list(o) for o in orders]}: the prediction function "
@@ -234,7 +233,7 @@ def keyorder_check():
                 single = [w(dict(x)) for x in xs]
                 if not all(same_dict(g, s) for g, s in zip(got, single)):
                     bad(f'batch-vs-single/{kind}', f"{kind} wrapper: batch result {got} differs from one-at-a-time {single}")
-            outcomes.add((kind, 'batch-orders', nrows))
+            outcomes.add((kind, 'batch-orders', tuple(names), nrows))
         # without feature names: values in dict order
         for order in itertools.permutations(['a', 'b', 'c']):
             received = []
@@ -384,6 +383,26 @@ def real_models_check():
         batch = w([dict(r) for r in rows])
         if len(batch) != len(rows):
             bad('real-river-batch', f"{label}: batch returned {len(batch)} rows")
+    # an online model keeps learning between two evaluations of the SAME input (the usual explain-then-learn loop with a
+    # repeated observation): the wrapper must report the model's CURRENT prediction
+    rreg2 = rlm.LinearRegression()
+    w2 = validate_model_function(rreg2.predict_one)
+    for i in range(30):
+        xi = {n: float(X[(i // 2) % 3, j]) for j, n in enumerate(names)}      # every observation delivered twice in a row
+        for rep_ in range(2):
+            got = w2(dict(xi))
+            want = {'output': float(rreg2.predict_one(dict(xi)))}
+            n_cases += 1
+            if not same_dict(got, want):
+                bad('stale-prediction', f"RiverWrapper around an online LinearRegression, evaluation {rep_ + 1} of observation "
+                                        f"{i} ({xi}) after {i} learning steps: wrapper(x) = {got!r} but the model now predicts {want!r}")
+            if rep_ == 0:
+                same_again = w2(dict(xi))
+                if not same_dict(same_again, want):
+                    bad('stale-prediction', f"RiverWrapper: two evaluations of {xi} without learning in between differ: "
+                                            f"{got!r} vs {same_again!r}")
+        rreg2.learn_one(xi, float(y_reg[i % 3]) + i)
+    outcomes.add(('real', 'river online model between evaluations'))
     import torch
     torch.manual_seed(0)
     for label, mod in [('torch Linear(3,1)', torch.nn.Linear(3, 1)), ('torch Linear(3,4)', torch.nn.Linear(3, 4))]:
